@@ -2,6 +2,7 @@
 C02 — entries read back with exactly the property values they were written with.
 -/
 import JubakoModel.Model.DirWriter
+import JubakoModel.Lemmas.DirCodec
 
 namespace Jubako
 
@@ -17,5 +18,80 @@ theorem c02_window (offset count n : Nat) (hin : offset + count ≤ n) :
   constructor
   · intro k hk; simp only [windowGet, hk, if_true]; rw [if_pos (by omega)]
   · intro k hk; simp only [windowGet]; rw [if_neg (by omega)]
+
+end Jubako
+
+namespace Jubako
+
+/-! ### Integer columns: the width rule never alters a value, and a too-narrow width would -/
+
+/-- every value of an unsigned column survives the column's width `needed_bytes(max)` -/
+theorem c02_uint_roundtrip (col : List Nat) (v : Nat) (h : v ∈ col) :
+    leNat (leBytes v (neededBytes (listMax col))) = v := uint_roundtrip col v h
+
+/-- … whereas a width that does not fit alters it (what the silent truncation of the writer would
+    do: `Representable` is exactly "fits") -/
+theorem c02_uint_narrow_alters (v n : Nat) (h : 256 ^ n ≤ v) : leNat (leBytes v n) ≠ v :=
+  uint_narrow_alters v n h
+
+/-- two's complement on `n` bytes round-trips exactly the values that fit `n` bytes (sign bit
+    included) — `c02_int_width` of the design -/
+theorem c02_int_width (v : Int) (n : Nat) (hn : 1 ≤ n) (hn8 : n ≤ 8)
+    (hr : -(2 ^ 63 : Int) ≤ v ∧ v < 2 ^ 63) :
+    fitsSigned v n ↔ signExtend (leNat (leBytesInt v n)) n = v := by
+  constructor
+  · exact sint_roundtrip v n hn hn8
+  · intro h; apply Classical.byContradiction; intro hf
+    exact sint_narrow_alters v n hn hn8 hr hf h
+
+/-- every value of a signed column — negative ones and those needing the sign bit included — fits
+    the width the repaired creator derives from `signed_size_key`, and that width is minimal -/
+theorem c02_sint_column (col : List Int) (hr : ∀ x ∈ col, -(2 ^ 63 : Int) ≤ x ∧ x < 2 ^ 63)
+    (v : Int) (h : v ∈ col) :
+    signExtend (leNat (leBytesInt v (neededBytes (listMax (col.map signedSizeKey)))))
+      (neededBytes (listMax (col.map signedSizeKey))) = v := by
+  have hf := sint_column_fits col hr v h
+  have h1 := (neededBytes_spec (listMax (col.map signedSizeKey))).2
+  have h8 : neededBytes (listMax (col.map signedSizeKey)) ≤ 8 := by
+    apply neededBytes_le_8
+    have : ∀ x ∈ col.map signedSizeKey, x < 2 ^ 63 := by
+      intro x hx
+      obtain ⟨y, _, rfl⟩ := List.mem_map.mp hx
+      exact signedSizeKey_lt y
+    have hmax : listMax (col.map signedSizeKey) < 2 ^ 63 := by
+      unfold listMax
+      have gen : ∀ (l : List Nat) (acc : Nat), acc < 2 ^ 63 → (∀ x ∈ l, x < 2 ^ 63) → l.foldl max acc < 2 ^ 63 := by
+        intro l
+        induction l with
+        | nil => intro acc h _; exact h
+        | cons x xs ih =>
+          intro acc ha hl
+          simp only [List.foldl_cons]
+          apply ih
+          · have := hl x List.mem_cons_self; omega
+          · intro y hy; exact hl y (List.mem_cons_of_mem _ hy)
+      exact gen _ 0 (by decide) this
+    omega
+  exact sint_roundtrip v _ h1 h8 hf
+
+theorem c02_sint_width_minimal (v : Int) (hr : -(2 ^ 63 : Int) ≤ v ∧ v < 2 ^ 63) (n : Nat) (hn : 1 ≤ n)
+    (hf : fitsSigned v n) : neededBytes (signedSizeKey v) ≤ n := signedSizeKey_min v hr n hn hf
+
+/-! ### Layout header and variant padding -/
+
+/-- every property header the creator writes is parsed back to the same property (kind, sizes,
+    default value, name), whatever follows it in the tail -/
+theorem c02_property_header_roundtrip (p : RawProp) (rest : Bytes) (hw : p.Writable) :
+    RawProp.decode (p.encode ++ rest) = .ok (p, rest) := rawProp_roundtrip p rest hw
+
+/-- variants are padded to exactly the size of the largest one, with padding chunks of 1..16 bytes -/
+theorem c02_variant_padding (n : Nat) :
+    propsSize (paddingProps n) = n ∧ ∀ p ∈ paddingProps n, p.kind = .padding ∧ 1 ≤ p.size ∧ p.size ≤ 16 :=
+  ⟨paddingProps_size n, paddingProps_kind n⟩
+
+/-- non-vacuity: the signed values the pinned code altered are covered -/
+example : fitsSigned 128 2 ∧ ¬ fitsSigned 128 1 ∧ fitsSigned (-300) 2 ∧ neededBytes (signedSizeKey 128) = 2 ∧
+    neededBytes (signedSizeKey (-300)) = 2 ∧ neededBytes (signedSizeKey (-128)) = 1 := by
+  refine ⟨by unfold fitsSigned; omega, by unfold fitsSigned; omega, by unfold fitsSigned; omega, by decide, by decide, by decide⟩
 
 end Jubako
